@@ -116,6 +116,7 @@ def modelVerdict (c : Case) (code dest tmps mdata info predrop extra pdir : Stri
         | .badDigest => "err-checksum"
         | .entityTooSmall => "err-part-size"
         | .invalidPart => "err-part-missing"
+        | .malformedXML => "err-part-list-empty"
         | .internalError =>
           if c.fault = "destdir" then "err-rename" else if c.fault = "metafail" || c.fault = "infofail" then "err-sidefile"
           else if c.cfg.mkdirsFails then "err-mkdirs"
